@@ -116,6 +116,27 @@ impl<'a> CodeBody<'a> {
             }
         }
 
+        // a block holding statements can also be entered by unconditional "br" (e.g. the
+        // join point of ternary or if/else branches), so it must not be marked unreachable
+        // if any path from the entry block leads there.
+        let mut live = vec![false; self.basic_blocks.len()];
+        let mut live_to_visit = vec![0];
+        while let Some(i) = live_to_visit.pop() {
+            if mem::replace(&mut live[i], true) {
+                continue;
+            }
+            match &self.basic_blocks[i].terminator {
+                Some(Terminator::Br(l)) => live_to_visit.push(l.0),
+                Some(Terminator::BrCond(_, a, b)) => live_to_visit.extend([a.0, b.0]),
+                Some(Terminator::Return(_) | Terminator::Unreachable) | None => {}
+            }
+        }
+        for (i, b) in self.basic_blocks.iter().enumerate() {
+            if live[i] && !b.statements.is_empty() {
+                reachable[i] = true;
+            }
+        }
+
         // turn "br" into "return" while distance from the start_ref block is 0, where
         // distance = completion_value + statements.len()
         let mut to_visit = vec![start_ref.0];
